@@ -13,9 +13,13 @@ structure St where
   disk : Disk := { manifest := none, blobs := [] }
   mem : Option Mem := none
 
+/-- `load` then `load_diagnostics` (the harness's order); the second read sees the disk the first
+    one left (`read_blob` removes a file that fails its content hash). -/
 def showEntry (d : Disk) (e : Entry) : String :=
-  let ld := match load consts d e with | none => "-" | some x => "=" ++ x
-  let dg := match loadDiagnostics consts d e with | none => "-" | some x => "=" ++ x
+  let r1 := load consts d e
+  let r2 := loadDiagnostics consts r1.1 e
+  let ld := match r1.2 with | none => "-" | some x => "=" ++ x
+  let dg := match r2.2 with | none => "-" | some x => "=" ++ x
   s!"hash={e.hash} frag={ld} deps={showList e.dependents} tests={showList e.tests} diag={dg}"
 
 /-- Request line → operation of the verified state machine (`Core/Store.lean`, `Op`). -/
@@ -37,15 +41,19 @@ def needsStore : Op → Bool
   | .drop => false
   | _ => true
 
-/-- Observations (`entry`, `blobs`) are answered here; every state change goes through
-    `VerylModel.Store.step`, the function the C29 theorems are about. -/
+/-- Observations (`entry`, `blobs`) are answered here; every state change (including the possible
+    file removal by the reads behind `entry`) goes through `VerylModel.Store.step`, the function
+    the C29 theorems are about. -/
 def step (s : St) (t : List String) : St × String :=
   match t, s.mem with
   | ["reset"], _ => ({}, "ok")
   | ["blobs"], _ =>
     (s, s!"blobs={s.disk.blobs.length} manifest={if s.disk.manifest.isSome then 1 else 0}")
   | ["entry", p], some m =>
-    (s, match entry m p with | none => "none" | some e => showEntry s.disk e)
+    let s1 := VerylModel.Store.step consts (s.disk, s.mem) (.load p)
+    let s2 := VerylModel.Store.step consts s1 (.loadDiagnostics p)
+    ({ disk := s2.1, mem := s2.2 },
+     match entry m p with | none => "none" | some e => showEntry s.disk e)
   | _, _ =>
     match parseOp t with
     | none => (s, "bad-op")
